@@ -1,8 +1,14 @@
 // prints the case mappings of the toolchain's std for every scalar value outside ASCII:
 //   L <hex utf8 of c> <hex utf8 of c.to_lowercase()>      when it differs from c
 //   U <hex utf8 of c> <hex utf8 of c.to_uppercase()>      when it differs from c
-// str::to_lowercase differs from the per-character mapping only for U+03A3 (final sigma); the model maps it to the non-final form and the
-// generators keep it out of compared cases.  The per-character view is checked here against str::to_lowercase / to_uppercase on "x" + c + "x".
+// str::to_lowercase differs from the per-character mapping only for U+03A3: a capital sigma becomes the final small sigma when, skipping
+// case-ignorable characters, a cased character precedes it and none follows.  The two character classes of that rule are private to std; they are
+// recovered here from str::to_lowercase itself, for every scalar value c (ASCII included):
+//   t1 = (c + sigma) ends in the final form, t2 = ('a' + c + sigma) ends in the final form;  case-ignorable(c) = t2 and not t1;  for the others cased(c) = t1
+//   I <lo> <hi>      a maximal range of case-ignorable code points (decimal)
+//   K <lo> <hi>      a maximal range of code points that are cased and not case-ignorable
+// and checked against the third arrangement ('a' + sigma + c is final iff c is case-ignorable or not cased) and a two-character context.
+// The per-character view is checked against str::to_lowercase / to_uppercase on "x" + c + "x".
 fn hex(s: &str) -> String { s.bytes().map(|b| format!("{:02x}", b)).collect() }
 fn main() {
     let mut bad = 0;
@@ -18,5 +24,37 @@ fn main() {
             if ctx.to_uppercase() != format!("X{}X", up) { bad += 1; }
         }
     }
+    let mut ci: Vec<u32> = Vec::new();
+    let mut ks: Vec<u32> = Vec::new();
+    for u in 0u32..0x110000u32 {
+        if let Some(c) = char::from_u32(u) {
+            let t1 = format!("{}\u{3a3}", c).to_lowercase().ends_with('\u{3c2}');
+            let t2 = format!("a{}\u{3a3}", c).to_lowercase().ends_with('\u{3c2}');
+            let i = t2 && !t1;
+            let k = !i && t1;
+            if i { ci.push(u); }
+            if k { ks.push(u); }
+            // a following character: final iff it is case-ignorable (nothing cased follows) or not cased
+            let t3 = format!("a\u{3a3}{}", c).to_lowercase().chars().nth(1) == Some('\u{3c2}');
+            if t3 != (i || !k) { bad += 1; }
+            // two-character contexts: an ignorable character between does not change the answer
+            let t4 = format!("a'\u{3a3}.{}", c).to_lowercase().chars().nth(2) == Some('\u{3c2}');
+            if t4 != (i || !k) { bad += 1; }
+            let t5 = format!("{}\u{301}\u{3a3}", c).to_lowercase().ends_with('\u{3c2}');
+            if t5 != k { bad += 1; }
+        }
+    }
+    let ranges = |v: &Vec<u32>, tag: &str| {
+        let mut j = 0;
+        while j < v.len() {
+            let lo = v[j];
+            let mut hi = lo;
+            while j + 1 < v.len() && v[j + 1] == hi + 1 { j += 1; hi = v[j]; }
+            println!("{} {} {}", tag, lo, hi);
+            j += 1;
+        }
+    };
+    ranges(&ci, "I");
+    ranges(&ks, "K");
     println!("CHECK {}", bad);
 }
